@@ -19,7 +19,8 @@ Next ==
          \* a residual, compiled with the same definitions, agrees with the original wherever the original returns
          b2 == e.kind = "residual" /\ \E i \in I : e.compiled[i][1] = "ok" /\ e.residual_compiled[i] # e.compiled[i]
          \* and the constant equals the source meaning when that returns (closed expressions)
-         s == IF e.kind = "const" /\ ~e.open THEN RunProgram(e.ast, Nil, 60) ELSE Oom
+         \* (in_model: the program's AST is in the record; nested beyond what the JSON reader takes it is left out)
+         s == IF e.kind = "const" /\ ~e.open /\ e.in_model THEN RunProgram(e.ast, Nil, 60) ELSE Oom
          b3 == e.kind = "const" /\ ~e.open /\ s[1] = "ok" /\ s # Ok(e.value)
      IN /\ bad' = IF b1 \/ b2 THEN bad \cup {l} ELSE bad
         /\ badsrc' = IF b3 THEN badsrc \cup {l} ELSE badsrc
